@@ -135,6 +135,8 @@ def payload_of(n, salt):
 
 def lengths_for(bs, rng, thorough):
     base = list(range(0, 4 * bs + 9))
+    if bs > 32:     # block sizes outside the table (thorough tier only): all of 0..bs+8, a sample of the rest
+        base = list(range(0, bs + 9)) + sorted(rng.sample(range(bs + 9, 4 * bs + 9), 60))
     extra = [255, 256, 257, 1000, 4095, 4096, 32768 - 5, 32768, 35000, 65535, 65536]
     k = 6 if thorough else 2
     return base, rng.sample(extra, k) + [rng.randrange(300, 70000) for _ in range(k)]
@@ -217,7 +219,7 @@ def parse_and_check(ctx, case, n, payload, wire, plain, calls, exp):
 
 def toy_configs(ctx, table_bs):
     sizes = sorted(set(table_bs) | {8})
-    extra = [32] + ([24, 64, 128, 248] if ctx.thorough else [])
+    extra = [32, 24, 64, 248] if ctx.thorough else []
     macs = [("sha1", 12), ("sha1", 20), ("sha256", 32), ("md5", 16), ("sha1", 40), ("sha512", 64)]
     cfgs = []
     for bs in sizes + [b for b in extra if b not in sizes]:
@@ -257,7 +259,14 @@ def toy_one(ctx, cfg, p, sink, eng, n, seq):
     payload = payload_of(n, cfg["bs"] + seq)
     if eng is not None:
         eng.calls = []
-    p.send_message(_Raw(payload))
+    try:
+        p.send_message(_Raw(payload))
+    except Exception as e:
+        case = {"drive": "toy", "cfg": dict(cfg), "seq": seq}
+        ctx.fail("send-raises", "send_message raised %s" % type(e).__name__, case=dict(case, payload_len=n),
+                 observed=repr(e)[:200])
+        sink.take()
+        return None, case
     wire = sink.take()
     calls = list(eng.calls) if eng is not None else []
     # recover the packet: toy cipher is an XOR
@@ -289,6 +298,42 @@ def toy_one(ctx, cfg, p, sink, eng, n, seq):
                      % ("ciphertext" if cfg["etm"] else "plaintext packet"),
                      case=dict(case, payload_len=n, wire=wire), expected=want[:cfg["mac"]], observed=tag)
     return summ, case
+
+
+def build_only(ctx, cfg, p, n):
+    """Packetizer._build_packet(payload) called directly; RFC checks on the packet alone."""
+    payload = payload_of(n, 3)
+    case = {"drive": "build", "cfg": dict(cfg), "payload_len": n}
+    try:
+        pkt = p._build_packet(payload)
+    except Exception as e:
+        ctx.fail("build-raises", "_build_packet raised %s" % type(e).__name__, case=case, observed=repr(e)[:200])
+        return None, case
+    excl = cfg["etm"] or cfg["aead"]
+    if len(pkt) < 5:
+        ctx.fail("short-packet", "packet shorter than 5 bytes", case=dict(case, plain=pkt))
+        return None, case
+    L, pad = struct.unpack(">IB", pkt[:5])
+    cnt = len(pkt) - 5 - n
+    if not (4 <= pad <= 255):
+        ctx.fail("padding-range", "padding length outside 4..255", case=dict(case, plain=pkt), observed=pad)
+    if cnt != pad:
+        ctx.fail("padding-bytes", "padding_length byte differs from the number of padding bytes present",
+                 case=dict(case, plain=pkt), expected=pad, observed=cnt)
+    if L != 1 + n + pad or len(pkt) != 4 + L:
+        ctx.fail("length-field", "packet_length != 1 + len(payload) + padding_length, or != bytes that follow",
+                 case=dict(case, plain=pkt), expected=1 + n + pad, observed=L)
+    if (len(pkt) - (4 if excl else 0)) % max(8, cfg["bs"]) != 0:
+        ctx.fail("alignment", "encrypted portion is not a multiple of max(8, block size)",
+                 case=dict(case, plain=pkt), observed=len(pkt))
+    if pkt[5:5 + n] != payload:
+        ctx.fail("payload-placement", "payload is not at offset 5 of the packet", case=dict(case, plain=pkt))
+    tail = pkt[5 + n:]
+    return [L, pad, cnt, 1 if tail == bytes(len(tail)) else 0, len(pkt)], case
+
+
+def build_input(cfg, n):
+    return coq(((cfg["enc"], cfg["etm"], cfg["aead"], cfg["sdctr"]), cfg["bs"], n))
 
 
 def toy_input(cfg, n):
@@ -340,10 +385,13 @@ def table_suite(ctx, ci, cname, cinfo, mi, mname, minfo, lens, server_mode, resu
     t.H = hashlib.sha256(b"H" + cname.encode() + mname.encode()).digest()
     t.session_id = hashlib.sha256(b"sid").digest()
     t.kex_engine = types.SimpleNamespace(hash_algo=hashlib.sha256)
+    t._remote_ext_info = None        # normally set while parsing the peer's KEXINIT
     bs = cinfo["block-size"]
     aead = bool(cinfo.get("is_aead", False))
     etm = (not aead) and ETM_MARKER in mname
-    case0 = {"drive": "table", "cipher": cname, "mac": mname, "server_mode": server_mode}
+    case0 = {"drive": "table", "cipher": cname, "mac": mname, "server_mode": server_mode,
+             "framing_class": [bs, aead, cname.endswith("-ctr"), etm, 16 if aead else minfo["size"],
+                               0 if aead else minfo["class"]().digest_size]}
 
     # NEWKEYS goes out under the previous (initial) state
     t._activate_outbound()
@@ -376,12 +424,19 @@ def table_suite(ctx, ci, cname, cinfo, mi, mname, minfo, lens, server_mode, resu
     seq = 1
     tag_len = 16 if aead else minfo["size"]
     for n in lens:
+        if n == 0:
+            continue            # send_message reads the message type byte: no empty payload
         payload = payload_of(n, ci * 11 + mi)
         pk.rec_engine.calls = []
-        pk.send_message(_Raw(payload))
+        case = dict(case0, seq=seq)
+        try:
+            pk.send_message(_Raw(payload))
+        except Exception as e:
+            ctx.fail("send-raises", "send_message raised %s for a negotiable suite" % type(e).__name__,
+                     case=dict(case, payload_len=n), observed=repr(e)[:200])
+            break
         wire = sink.take()
         calls = list(pk.rec_engine.calls)
-        case = dict(case0, seq=seq)
         plain = None
         try:
             if aead:
@@ -429,7 +484,7 @@ def live_tables():
     return list(Transport._cipher_info.items()), list(Transport._mac_info.items())
 
 
-def run_toy_drive(ctx, table_bs, only=None):
+def run_toy_drive(ctx, table_bs, only=None, builds=None):
     results = []
     for cfg in toy_configs(ctx, table_bs):
         if only is not None and any(cfg.get(k) != v for k, v in only["cfg"].items()):
@@ -441,7 +496,18 @@ def run_toy_drive(ctx, table_bs, only=None):
             base, big = [only["payload_len"]], []
         p, sink, eng = toy_packetizer(cfg)
         seq = 0
+        if builds is not None:
+            # length 0 (and two more) through _build_packet directly
+            for n in ([0, 1, cfg["bs"] - 4] if only is None else base):
+                summ, case = build_only(ctx, cfg, p, n)
+                ctx.count(("build", tuple(sorted(cfg.items(), key=str)), n), nontrivial=True, kind="build-only")
+                if summ is not None:
+                    builds.append((build_input(cfg, n), summ, case))
+            if only is not None:
+                continue
         for n in base + big:
+            if n == 0:
+                continue        # send_message reads the message type byte: no empty payload
             summ, case = toy_one(ctx, cfg, p, sink, eng, n, seq)
             seq += 1
             mode = "clear" if not cfg["enc"] else ("etm" if cfg["etm"] else ("aead" if cfg["aead"] else "classic"))
@@ -454,7 +520,8 @@ def run_toy_drive(ctx, table_bs, only=None):
 def compare(ctx, fn, ty, results, what):
     if not results:
         return
-    bad = ctx.model_mismatches(fn, ty, [(i, s) for i, s, _ in results], shard=400)
+    shard = max(200, -(-len(results) // 8))       # at most 8 case files: one round of parallel coqc
+    bad = ctx.model_mismatches(fn, ty, [(i, s) for i, s, _ in results], shard=shard)
     for k in bad[:3]:
         ctx.disagree("%s: packet summary [L, pad, padbytes, zeropad, packet_len, enc_off, enc_len, tag, wire_len] "
                      "differs from the model" % what, case=results[k][2], impl=results[k][1])
@@ -462,7 +529,7 @@ def compare(ctx, fn, ty, results, what):
 
 def run(ctx):
     ctx.rule = ("exhaustive: toy drive = every framing mode (clear, classic, EtM, AEAD, etm+aead) x sdctr x every "
-                "block size of the generated table (+8, 32; more in the thorough tier) x payload lengths "
+                "block size of the generated table (+8; 24, 32, 64, 248 in the thorough tier) x payload lengths "
                 "0..4*bs+8 plus seeded large lengths; table drive = every (cipher, MAC) pair of the live tables "
                 "configured by the real _activate_outbound with real engines x lengths 0..4*bs+8 (+ large). "
                 "Every case is a distinct (configuration, length) and non-trivial (a packet is built, written, "
@@ -477,7 +544,8 @@ def run(ctx):
     table_bs = sorted({info["block-size"] for _, info in ciphers})
 
     with pinned_urandom():
-        toy = run_toy_drive(ctx, table_bs)
+        builds = []
+        toy = run_toy_drive(ctx, table_bs, builds=builds)
         table = []
         for ci, (cname, cinfo) in enumerate(ciphers):
             for mi, (mname, minfo) in enumerate(macs):
@@ -489,7 +557,24 @@ def run(ctx):
     ctx.exhaustive = True
     ctx.log("toy drive: %d packets; table drive: %d packets over %d suites" % (len(toy), len(table),
                                                                              len(ciphers) * len(macs)))
+    compare(ctx, "run_build", "((bool * bool * bool * bool) * Z * Z)", builds, "_build_packet")
     compare(ctx, "run_toy", "((bool * bool * bool * bool) * (Z * Z * Z * Z) * Z)", toy, "toy drive")
+    if not ctx.thorough:
+        # every packet above went through the RFC oracle; for the model comparison the quick tier keeps all
+        # lengths for the first suite of each framing class (block size, aead, sdctr, etm, tag, digest) and a
+        # few lengths for the suites that frame identically
+        first = {}
+        sel = []
+        for r in table:
+            c = r[2]
+            k = tuple(c["framing_class"])
+            first.setdefault(k, (c["cipher"], c["mac"]))
+            n, bs = c["payload_len"], c["framing_class"][0]
+            if first[k] == (c["cipher"], c["mac"]) or n in (1, bs - 5, bs, 4 * bs + 8) or n > 4 * bs + 8:
+                sel.append(r)
+        ctx.notes.append("quick tier: %d of %d table-drive packets compared with the model (all %d checked by "
+                         "the RFC oracle)" % (len(sel), len(table), len(table)))
+        table = sel
     compare(ctx, "run_table", "(Z * Z * Z)", table, "table drive")
     for r in (toy[:2] + table[40:42] + table[-1:]):
         ctx.sample({"case": r[2], "impl_summary": r[1]})
@@ -499,7 +584,12 @@ def replay(ctx, rep):
     case = rep["case"]
     ciphers, macs = live_tables()
     with pinned_urandom():
-        if case.get("drive") == "toy":
+        if case.get("drive") == "build":
+            res = []
+            run_toy_drive(ctx, sorted({info["block-size"] for _, info in ciphers}),
+                          only={"cfg": case["cfg"], "payload_len": case["payload_len"]}, builds=res)
+            compare(ctx, "run_build", "((bool * bool * bool * bool) * Z * Z)", res, "_build_packet")
+        elif case.get("drive") == "toy":
             res = run_toy_drive(ctx, sorted({info["block-size"] for _, info in ciphers}),
                                 only={"cfg": case["cfg"], "payload_len": case["payload_len"]})
             ctx.count(("replay", repr(case)[:200]))
@@ -511,7 +601,7 @@ def replay(ctx, rep):
                     if cname == case["cipher"] and mname == case["mac"]:
                         n = case.get("payload_len", 0)
                         # same position in the cipher stream as the recorded case
-                        lens = list(range(0, n + 1)) if case.get("seq", 1) == n + 1 else [n]
+                        lens = list(range(1, n + 1)) if case.get("seq") == n else [n]
                         table_suite(ctx, ci, cname, cinfo, mi, mname, minfo, lens,
                                     server_mode=bool(case.get("server_mode")), results=res)
             compare(ctx, "run_table", "(Z * Z * Z)", res, "table drive")
